@@ -51,11 +51,11 @@ var props = []*core.Property{
 		notCovered: []string{"that mime.FormatMediaType -> mime.ParseMediaType round-trips every label (stdlib behaviour)"},
 		rules:      []*core.Rule{ruleNames, ruleTreeWF, ruleParams, ruleCloneChain, ruleErrorReturns, ruleSnifferMap}}),
 	mk(pd{id: "C03", level: "other",
-		levelText:  "The tree is well formed (single parent, rooted) and the only function that invokes detectors is a recursive first-match descent over the receiver's children with unmodified arguments, returning the clone of exactly the static parent chain, inside one read-lock region. These are necessary and, with the trusted base, sufficient for the reported hierarchy to be the first-match deepest path.",
+		levelText:  "The tree is well formed (single parent, rooted) and the only function that invokes detectors is a first-match descent (recursive, or one of the two loop forms) over the current node's children with unmodified arguments, returning the clone of exactly the static parent chain, inside one read-lock region; pooled helper state that detectors use is reset before use, so a detector's verdict is a function of the header. These are necessary and, with the trusted base, sufficient for the reported hierarchy to be the first-match deepest path.",
 		technique:  "tree reconstruction from type-checked initialisers; shape rules on the walk's SSA (forward full-range loop, call arguments, edges); lockset",
 		expl:       "decides the walk discipline and the clone chain for every input and every tree reachable by Extend",
 		notCovered: []string{"an independent re-walk per input (runtime)"},
-		rules:      []*core.Rule{ruleTreeWF, ruleWalkDiscipline, ruleCloneChain, ruleSnapshot, ruleExtend}}),
+		rules:      []*core.Rule{ruleTreeWF, ruleWalkDiscipline, ruleCloneChain, ruleSnapshot, ruleExtend, rulePools}}),
 	mk(pd{id: "C04", level: "other",
 		levelText:  "No hidden inputs or outputs: the walk receives exactly in[:limit] for the snapshot limit (order types tabulated); no detector, sniffer or entry writes through its input slice; no store to package state outside initialisers; pooled objects are typed, reset before use, and every scanner field written during scanning is reset; no nondeterministic source. Sufficient for purity modulo the trusted base.",
 		technique:  "finite-domain tabulation of the slicing decision; write-through-parameter summaries over the call graph with an external contract table; pool typestate by dominance; store inventory",
